@@ -51,4 +51,4 @@ def main():
 
 
 if __name__ == '__main__':
-    main()
+    guarded(main)
